@@ -23,7 +23,7 @@ def rounded_deadline(d):
 class FullCheck(BaseCheck):
   FOCUS = ()
   QUICK_CASES = 1280
-  THOROUGH_CASES = 12000
+  THOROUGH_CASES = 40000
   QUICK_WALL = 50
   THOROUGH_WALL = 480
   MIN_DISTINCT = 10
